@@ -6,6 +6,7 @@ import (
 	"fmt"
 	"go/token"
 	"go/types"
+	"regexp/syntax"
 	"strings"
 
 	"golang.org/x/tools/go/ssa"
@@ -475,6 +476,7 @@ func checkC15(p *Prog, r *Report) {
 	}
 	r.rule("R15.7", "What stripReloadBanner does after it removed a banner keeps its audited controlling conditions (tables/guards.tsv rows for C15): banner alone before the prompt -> wait for the next prompt and strip it; banner directly behind real output -> try a further prompt; otherwise nothing more is read. (Reading a prompt that will not come ends the run with a time-out; not reading one that comes shifts every later answer.)")
 	ruleGuardTable(p, r, "R15.7", "C15")
+	ruleBannerPatternBounded(p, r)
 	// "only if all changes were accepted": the IOS instance of R09.1
 	ruleOutputValidated(p, nil, r, "ios")
 	r.Trusted = []string{"go/ssa, call graph", "IOS prints the reload banners in the forms bannerRe matches"}
@@ -511,4 +513,85 @@ func storeOperands(v ssa.Value) []ssa.Value {
 	}
 	walk(v)
 	return out
+}
+
+// ruleBannerPatternBounded: R15.9.
+func ruleBannerPatternBounded(p *Prog, r *Report) {
+	r.rule("R15.9", "The reload-banner pattern removes exactly the banner: parsed with regexp/syntax, the constant pattern of ios.bannerRe has no unbounded repetition (*, +, {n,}) of anything that can match a newline, so the number of line ends it consumes is fixed. (A pattern that may swallow further newlines eats the line end of the neighbouring command echo; the echo check then aborts the run or a later answer is misread.)")
+	var pat string
+	found := false
+	for _, fn := range allModFuncs(p) {
+		if pkgOfFunc(fn) != "ios" || fn.Name() != "init" {
+			continue
+		}
+		for _, b := range fn.Blocks {
+			for _, in := range b.Instrs {
+				st, ok := in.(*ssa.Store)
+				if !ok {
+					continue
+				}
+				g, ok := st.Addr.(*ssa.Global)
+				if !ok || g.Name() != "bannerRe" {
+					continue
+				}
+				if c, ok := st.Val.(*ssa.Call); ok && len(c.Common().Args) == 1 {
+					if s, ok := constString(c.Common().Args[0]); ok {
+						pat, found = s, true
+					}
+				}
+			}
+		}
+	}
+	if !found {
+		r.fail("R15.9", "anchor|ios.bannerRe", "", "no constant pattern compiled into ios.bannerRe found", "")
+		return
+	}
+	re, err := syntax.Parse(pat, syntax.Perl)
+	if err != nil {
+		r.fail("R15.9", "banner-pattern-parses", "", "pattern does not parse: "+err.Error(), "")
+		return
+	}
+	var matchesNL func(x *syntax.Regexp) bool
+	matchesNL = func(x *syntax.Regexp) bool {
+		switch x.Op {
+		case syntax.OpLiteral:
+			for _, c := range x.Rune {
+				if c == '\n' {
+					return true
+				}
+			}
+			return false
+		case syntax.OpCharClass:
+			for i := 0; i+1 < len(x.Rune); i += 2 {
+				if x.Rune[i] <= '\n' && '\n' <= x.Rune[i+1] {
+					return true
+				}
+			}
+			return false
+		case syntax.OpAnyChar:
+			return true
+		case syntax.OpAnyCharNotNL, syntax.OpEmptyMatch, syntax.OpBeginLine, syntax.OpEndLine, syntax.OpBeginText, syntax.OpEndText, syntax.OpWordBoundary, syntax.OpNoWordBoundary:
+			return false
+		}
+		for _, s := range x.Sub {
+			if matchesNL(s) {
+				return true
+			}
+		}
+		return false
+	}
+	bad := ""
+	var walk func(x *syntax.Regexp)
+	walk = func(x *syntax.Regexp) {
+		unbounded := x.Op == syntax.OpStar || x.Op == syntax.OpPlus || (x.Op == syntax.OpRepeat && x.Max == -1)
+		if unbounded && len(x.Sub) == 1 && matchesNL(x.Sub[0]) {
+			bad = x.String()
+		}
+		for _, s := range x.Sub {
+			walk(s)
+		}
+	}
+	walk(re)
+	r.add("R15.9", "banner-pattern-consumes-fixed-line-ends|ios.bannerRe", "", fmt.Sprintf("pattern %q has no unbounded repetition over newlines", pat), bad == "",
+		"the sub-pattern "+bad+" can consume a varying number of newlines: line ends of neighbouring output are removed together with the banner")
 }
